@@ -44,8 +44,7 @@ Definition sgq (s : Z) : Q := inject_Z s.
 (* ---- DiscreteFourierTransform / Inverse (both back-ends) ---- *)
 Inductive impl_out := IOk (r : list cq) | IValueErr | ITypeErr | IOtherErr.
 (* variant switches measured on the current code (see Model.v) *)
-Record variants := { v_dft_real_pyfftw : bool; v_dft_hc_odd_numpy : bool;
-                     v_ft_real_unshifted_pyfftw : bool; v_ft_hc_needs_all_shifts : bool }.
+Record variants := { v_ft_hc_needs_all_shifts : bool }.
 Record case_dft := {
   d_shape : list nat; d_axes : list nat; d_sg : Z; d_hc : bool; d_inv : bool;
   d_defrange : bool;           (* range/domain of the frequency side built by the operator itself *)
@@ -53,9 +52,7 @@ Record case_dft := {
   d_x : list cq; d_out : impl_out; d_tol : Q }.
 Definition check_dft (k : case_dft) : bool :=
   let st := match dft_init_status (d_shape k) (d_axes k) (d_hc k) (d_defrange k) with
-            | SOk => if d_inv k then dft_inverse_status (v_dft_real_pyfftw (d_var k)) (v_dft_hc_odd_numpy (d_var k))
-                                        (d_pyfftw k) (d_real k) (d_hc k) (d_sg k =? -1)%Z (d_shape k) (d_axes k)
-                     else SOk
+            | SOk => SOk
             | e => e
             end in
   match st, d_out k with
@@ -81,7 +78,7 @@ Definition check_ft (k : case_ft) : bool :=
   let fwd_plus := if t_inv k then (t_sg k =? -1)%Z else (t_sg k =? 1)%Z in
   let st := match ft_init_status (v_ft_hc_needs_all_shifts (t_var k)) g (t_axes k) (t_shifts k) (t_hc k) fwd_plus with
             | SOk => if t_inv k
-                     then ft_inverse_status (v_ft_real_unshifted_pyfftw (t_var k)) (t_pyfftw k) (t_real k) (t_hc k) (t_shifts k)
+                     then ft_inverse_status (t_real k) (t_hc k) (t_shifts k)
                      else ft_forward_status (t_pyfftw k) (t_real k) (t_hc k) (t_shifts k)
             | e => e
             end in
@@ -200,7 +197,8 @@ Definition check_haarnd (k : case_haarnd) : bool :=
   (* <W x', c>_coeff = <x', W.adjoint c>_dom for x' = x and the extra elements *)
   && forallb (fun x' => Qclose htol htol (inner_dom sides x' (n_adj k)) (dot (W x') (n_c k)))
              (n_x k :: n_xs k)
-  (* W (W.inverse c) = c *)
+  (* W (W.inverse c) = c, and W.inverse c is the model's inverse *)
   && Qsclose htol htol (n_c k) (W (n_inv k))
+  && Qsclose htol htol (n_inv k) (ihaar_nd r2Q (n_L k) (n_shape k) (n_axes k) (n_c k))
   (* <W.inverse c, x>_dom = <c, W.inverse.adjoint x>_coeff *)
   && Qclose htol htol (dot (n_c k) (n_iadj k)) (inner_dom sides (n_inv k) (n_x k)).
